@@ -290,6 +290,7 @@ func (g *gen) random(steps int) {
 	opReset(k, limit)
 	g.zeroAt = map[int64]bool{}
 	ext := 0
+	size := 0 // current POSIX size
 	for i := 0; i < steps; i++ {
 		switch x := g.r.Intn(20); {
 		case x < 11:
@@ -301,8 +302,9 @@ func (g *gen) random(steps int) {
 			if g.r.Chance(1, 4) {
 				o = ext // sequential append
 			}
-			if g.r.Chance(1, 12) && !g.zeroAt[int64(o)] {
-				// zero-length write; a SECOND one at an offset where a zero-length list stands makes that list
+			if g.r.Chance(1, 12) && !g.zeroAt[int64(o)] && o <= size {
+				// zero-length write inside the file (POSIX: no effect; beyond the end FileHandle.Write would extend the
+				// FileSize attribute, but the kernel never forwards zero-length writes); a SECOND one at an offset where a zero-length list stands makes that list
 				// cyclic (ReadData never returns) - the kernel does not forward zero-length writes, so not generated
 				n = 0
 				g.zeroAt[int64(o)] = true
@@ -311,15 +313,18 @@ func (g *gen) random(steps int) {
 			if o+n > ext {
 				ext = o + n
 			}
+			if n > 0 && o+n > size {
+				size = o + n
+			}
 		case x < 13:
 			sz := g.r.Intn(ext + 4)
 			opTruncate(uint64(sz))
+			size = sz
 			if sz > ext {
 				ext = sz
 			}
 		case x < 15:
-			opFlush()
-			g.zeroAt = map[int64]bool{}
+			opFlush() // (zero-length lists survive a flush of the in-memory buffer: zeroAt is kept)
 		default:
 			o := g.r.Intn(ext + 2)
 			n := 1 + g.r.Intn(ext+3-o)
@@ -369,16 +374,18 @@ func main() {
 		return
 	}
 	g := &gen{r: hx.NewRng(a.Seed)}
-	// bounded-exhaustive: all write sequences of length 1 and 2 for both buffers; length 3 in the thorough tier;
-	// sampled sequences of length 3 and 4
-	for _, k := range []string{"mem", "tmp"} {
+	// bounded-exhaustive: all write sequences of length 1 (both buffers) and 2 (quick: one buffer per seed; thorough: both);
+	// length 3 for one buffer in the thorough tier; sampled sequences of length 3 and 4
+	for ki, k := range []string{"mem", "tmp"} {
 		g.exhaustive(1, k, 5)
-		g.exhaustive(2, k, 5)
-		if a.Thorough() {
+		if a.Thorough() || int(a.Seed)%2 == ki {
+			g.exhaustive(2, k, 5) // quick: one buffer per seed
+		}
+		if a.Thorough() && int(a.Seed/4)%2 == ki {
 			g.exhaustive(3, k, []int64{3, 5, 8, 64}[int(a.Seed)%4])
 		}
 	}
-	for i := 0; i < a.N(300); i++ {
+	for i := 0; i < a.N(200); i++ {
 		k, limit := g.kindLimit()
 		n := 3 + g.r.Intn(2)
 		ws := make([][2]int, n)
@@ -387,7 +394,7 @@ func main() {
 		}
 		g.bounded(k, limit, ws)
 	}
-	for i := 0; i < a.N(60); i++ {
+	for i := 0; i < a.N(40); i++ {
 		g.random(10 + g.r.Intn(30))
 	}
 }
